@@ -286,6 +286,8 @@ func runC01() {
 		n = 20000
 	}
 	n = scaled(n)
+	// the directed async-commit recovery family of c02async.go (profile full): a recovered transaction is all-or-nothing
+	asyncRecoveryFamily(rnd.Fork(), 2)
 	for i := 0; i < n; i++ {
 		c01Scenario(rnd.Fork())
 		// locking reads across fair-locking retries whose earlier locks expired (family of c06.go; the locking-read
